@@ -45,6 +45,26 @@ static void *vmalloc_exact(size_t n, size_t max) {
 	return p;
 }
 
+/* ghost observer (DESIGN 10.9): the staging adds VWATCH(); after every expression statement of the library (obligations
+ * with "watch"); it asks the harness whether the read-only inputs of the running call still have their entry values at
+ * one nondeterministically chosen place.  A write that is undone before the call returns is caught at the first
+ * statement boundary behind it - the state a concurrent reader of the shared input could see. */
+#ifdef V_WATCH
+# ifdef VW
+typedef wchar_t vw_char;
+# else
+typedef char vw_char;
+# endif
+/* the watched place: a pointer field, an int field, a character or an address byte (exactly one is non-null) */
+static const void *const *g_wpp; static const void *g_wp0;
+static const int *g_wpi; static int g_wi0;
+static const vw_char *g_wpc; static vw_char g_wc0;
+static const unsigned char *g_wpu; static unsigned char g_wu0;
+static int g_watch_on, g_watch_bad, g_watch_line;
+# define VW_DIFFERS() ((g_wpp != 0 && *g_wpp != g_wp0) || (g_wpi != 0 && *g_wpi != g_wi0) || (g_wpc != 0 && *g_wpc != g_wc0) || (g_wpu != 0 && *g_wpu != g_wu0))
+# define VWATCH() ((void)((g_watch_on && !g_watch_bad && VW_DIFFERS()) ? (g_watch_bad = 1, g_watch_line = __LINE__) : 0))
+#endif
+
 /* labelled assertions: the label prefix is what vlib/run.py classifies on.
  * VCOVERMODE (vacuity guard, separate run): only the input-diversity markers are compiled, as assertions that must FAIL. */
 #ifdef VCOVERMODE
